@@ -174,7 +174,8 @@ fn yaml_scalar(text: &str) -> String {
 
 fn is_none_or_default_timeout(timeout: &Option<Duration>) -> bool {
     if let Some(timeout) = timeout {
-        timeout.as_secs() == DEFAULT_DOCUMENT_TIMEOUT
+        // exactly the default -- not merely the same number of whole seconds
+        *timeout == Duration::from_secs(DEFAULT_DOCUMENT_TIMEOUT)
     } else {
         false
     }
